@@ -871,6 +871,20 @@ func (st *State) resolveSpecType(name string, env *specEnv) (types.Type, Sort) {
 	case "Bool":
 		return types.Typ[types.Bool], SBool
 	}
+	if strings.HasPrefix(name, "[") && !strings.HasPrefix(name, "[]") {
+		// an array type [N]T
+		if j := strings.Index(name, "]"); j > 1 {
+			var n int64
+			if _, err := fmt.Sscanf(name[1:j], "%d", &n); err == nil {
+				T, _ := st.resolveSpecType(name[j+1:], env)
+				if T == nil {
+					env.fail("bad element type in %s", name)
+				}
+				at := types.NewArray(T, n)
+				return at, te.SortOf(at)
+			}
+		}
+	}
 	if strings.HasPrefix(name, "[]") {
 		T, _ := st.resolveSpecType(name[2:], env)
 		if T == nil {
@@ -1016,6 +1030,15 @@ func (st *State) specCall(e *SExpr, env *specEnv) Value {
 				}
 			}
 			env.fail("local(%s): no such variable", args[0])
+		case "visited":
+			// visited(k): the active range-over-map loop has already delivered key k
+			if len(args) != 1 || len(st.rangeVis) != 1 {
+				env.fail("visited(k) needs exactly one active range over a map (have %d)", len(st.rangeVis))
+			}
+			for rs, vis := range st.rangeVis {
+				k := st.coerceTo(st.evalSpec(args[0], env), rs.keySort, env)
+				return Value{T: boolT, S: SBool, Term: app("select", vis, k.Term)}
+			}
 		case "hlen":
 			// output length of the hash function H
 			return Value{S: SInt, Term: "hlenH"}
